@@ -299,18 +299,48 @@ def run_impl(pid, tier, seed, rundir, name=None):
 
 
 def run_model(cases, rundir):
+    """Evaluate the extracted model on every case; large case files are split over the cores
+    (modelrun shard i k evaluates the cases whose number is i modulo k)."""
     mm = os.path.join(rundir, "mismatches.txt")
-    with open(cases, "rb") as fin, open(mm, "wb") as fout:
-        p = subprocess.run([os.path.join(BUILD, "modelrun")], stdin=fin, stdout=fout, stderr=subprocess.PIPE, timeout=7200)
+    size = os.path.getsize(cases)
+    k = 1 if size < (4 << 20) else max(1, min(16, os.cpu_count() or 1))
+    procs = []
+    for i in range(k):
+        fin = open(cases, "rb")
+        fout = open("%s.%d" % (mm, i), "wb")
+        args = [os.path.join(BUILD, "modelrun")] + (["shard", str(i), str(k)] if k > 1 else [])
+        procs.append((subprocess.Popen(args, stdin=fin, stdout=fout, stderr=subprocess.PIPE), fin, fout))
+    rc, errs = 0, []
+    deadline = time.time() + 7200
+    for p, fin, fout in procs:
+        try:
+            _o, e = p.communicate(timeout=max(1, deadline - time.time()))
+        except subprocess.TimeoutExpired:
+            p.kill()
+            _o, e = p.communicate()
+            rc = rc or 124
+        fin.close()
+        fout.close()
+        rc = rc or p.returncode
+        errs.append(e.decode("utf-8", "replace"))
     mismatches = []
-    done = None
-    for line in open(mm, errors="replace"):
-        f = line.rstrip("\n").split("\t")
-        if f[0] == "MISMATCH":
-            mismatches.append((int(f[1]), f[2] if len(f) > 2 else ""))
-        elif f[0] == "DONE":
-            done = (int(f[1]), int(f[2]))
-    return p.returncode, done, mismatches, p.stderr.decode("utf-8", "replace")
+    n_done, n_bad, finished = 0, 0, 0
+    with open(mm, "w") as merged:
+        for i in range(k):
+            part = "%s.%d" % (mm, i)
+            for line in open(part, errors="replace"):
+                merged.write(line)
+                f = line.rstrip("\n").split("\t")
+                if f[0] == "MISMATCH":
+                    mismatches.append((int(f[1]), f[2] if len(f) > 2 else ""))
+                elif f[0] == "DONE":
+                    n_done += int(f[1])
+                    n_bad += int(f[2])
+                    finished += 1
+            os.remove(part)
+    mismatches.sort()
+    done = (n_done, n_bad) if finished == k else None
+    return rc, done, mismatches, "".join(errs)
 
 
 def case_lines(cases, linenos):
